@@ -25,7 +25,7 @@ type Doc struct {
 	Content   string    `json:"content"`
 	Links     []DocLink `json:"links"` // in document order
 	Nested    bool      `json:"nested,omitempty"`
-	Odd       bool      `json:"odd,omitempty"` // some link attribute is not a plain absolute https URL
+	Odd       bool      `json:"odd,omitempty"`       // some link attribute is not a plain absolute https URL
 	LongWord  int       `json:"long_word,omitempty"` // length of the longest unbreakable token
 }
 
@@ -37,12 +37,13 @@ func Target(i int) string { return fmt.Sprintf("https://t.test/T%dE", i) }
 
 type docGen struct {
 	anchorDepth int // > 0 while the inside of an anchor is being generated (no further anchors there, also not in fallback content)
-	t     *rapid.T
-	next  *int
-	links []DocLink
-	long  int
-	nest  bool
-	odd   bool
+	t           *rapid.T
+	next        *int
+	links       []DocLink
+	long        int
+	nest        bool
+	odd         bool
+	mixed       bool // block elements also inside inline style elements
 }
 
 func (g *docGen) link(kind string) int {
@@ -122,6 +123,12 @@ func (g *docGen) inline(depth int, inAnchor bool) string {
 			b.WriteString(g.words(6))
 		case k <= 5:
 			tag := rapid.SampledFrom(inlineTags).Draw(g.t, "itag")
+			if g.mixed && depth > 0 && rapid.IntRange(0, 2).Draw(g.t, "blocksinside") == 0 {
+				// ins, del, a … are transparent: servers do send <del><blockquote>…</blockquote></del>; and the parser
+				// keeps block children of any inline element where it finds them
+				b.WriteString("<" + tag + ">" + g.blocks(depth-1, inAnchor) + "</" + tag + ">")
+				break
+			}
 			b.WriteString("<" + tag + ">" + g.inline(depth-1, inAnchor) + "</" + tag + ">")
 		case k == 6:
 			b.WriteString("<br>")
@@ -241,9 +248,18 @@ func (g *docGen) blocks(depth int, inAnchor bool) string {
 	return b.String()
 }
 
+// GenHTMLMixed is GenHTML with block elements also inside inline style elements (seed C15-L).
+func GenHTMLMixed(t *rapid.T, next *int, depth int) Doc {
+	return genHTML(t, next, depth, true)
+}
+
 // GenHTML draws a well-nested HTML body with labelled links.
 func GenHTML(t *rapid.T, next *int, depth int) Doc {
-	g := &docGen{t: t, next: next}
+	return genHTML(t, next, depth, false)
+}
+
+func genHTML(t *rapid.T, next *int, depth int, mixed bool) Doc {
+	g := &docGen{t: t, next: next, mixed: mixed}
 	content := g.blocks(depth, false)
 	if rapid.SampledFrom([]int{0, 0, 0, 0, 0, 0, 0, 1}).Draw(t, "manylinks") == 1 {
 		// a link list: numbers with two digits
